@@ -20,6 +20,20 @@ class Facts:
                 restore_param_order(self.raw, perms)
             from .inline import restore_self_params
             self.self_restored = restore_self_params(self.raw, reference)
+        # a call of a local generic function with concrete arguments goes to the monomorphic copy the driver made for it
+        def _mono(o):
+            if isinstance(o, dict):
+                if o.get("k") == "fn" and "mono" in o:
+                    o["resolved_generic"] = o.get("resolved")
+                    o["resolved"] = o["mono"]
+                    o["resolved_inst"] = o["mono"]
+                for v in o.values():
+                    _mono(v)
+            elif isinstance(o, list):
+                for v in o:
+                    _mono(v)
+        if any("mono_of" in f for f in self.raw["fns"]):
+            _mono(self.raw["fns"])
         self.crate = self.raw["crate"]
         self.opts = self.raw["opts"]
         self.fns = {}
